@@ -192,7 +192,39 @@ def handleStr (args : List Json) : Json :=
                 ("orig_printed", jstr (String.ofList (reprOrig v.toList)))]
   | _ => jerr "bad-args"
 
+def ptokJson : PTok → Json
+  | .word s => jarr [jstr "word", jstr s]
+  | .identstring s => jarr [jstr "identstring", jstr s]
+  | .identindex i => jarr [jstr "identindex", jstr (toString i)]
+  | .lbracket => jstr "lbracket" | .rbracket => jstr "rbracket" | .dot => jstr "dot"
+  | .other _ => jstr "other"
+
+mutual
+partial def segJson : Seg → Json
+  | .name s => jarr [jstr "n", jstr s]
+  | .idx i => jarr [jstr "i", jstr (toString i)]
+  | .sub p => jarr [jstr "p", jarr (segsJson p)]
+partial def segsJson : Segs → List Json
+  | .nil => []
+  | .cons s r => segJson s :: segsJson r
+end
+
+/-- `["c04_path", [seg…]]` → the tokens of the printed path and `Path.parse` of those tokens -/
+def handlePath (args : List Json) : Json :=
+  match args with
+  | [p] => match (asArr? p).bind segsOf with
+    | some segs =>
+      let toks := tokSegs true segs
+      Json.mkObj [("toks", jarr (toks.map ptokJson)),
+                  ("text", jstr (strSegs true segs)),
+                  ("reparse", match parsePath toks with
+                    | some (q, []) => jarr (segsJson q)
+                    | _ => Json.null)]
+    | none => jerr "bad-path"
+  | _ => jerr "bad-args"
+
 def commands : List (String × (List Lean.Json → Lean.Json)) :=
-  [("c04_print", handlePrint), ("c04_bool", handleBool), ("c04_parse", handleParse), ("c04_str", handleStr)]
+  [("c04_print", handlePrint), ("c04_bool", handleBool), ("c04_parse", handleParse), ("c04_str", handleStr),
+   ("c04_path", handlePath)]
 
 end Driver.C04
